@@ -33,12 +33,31 @@ func errForwarded(fn *ssa.Function, call ssa.CallInstruction) (*ssa.Return, stri
 			continue
 		}
 		derives := false
-		for v := range backSlice(res[errIdx]) {
+		isCallErr := func(v ssa.Value) bool {
 			if v == cv {
+				return true
+			}
+			ex, ok := v.(*ssa.Extract)
+			return ok && ex.Tuple == cv
+		}
+		for v := range backSlice(res[errIdx]) {
+			if isCallErr(v) {
 				derives = true
 			}
-			if ex, ok := v.(*ssa.Extract); ok && ex.Tuple == cv {
-				derives = true
+			// a value read back from a variable (local or captured) into which the call's error was stored
+			if u, ok := v.(*ssa.UnOp); ok && u.Op == token.MUL {
+				allInstrs(fn, func(in ssa.Instruction) {
+					if st, ok := in.(*ssa.Store); ok && st.Addr == u.X {
+						for w := range backSlice(st.Val) {
+							if isCallErr(w) {
+								derives = true
+							}
+						}
+						if isCallErr(st.Val) {
+							derives = true
+						}
+					}
+				})
 			}
 		}
 		if !derives {
@@ -948,6 +967,28 @@ func runC13Hooks(c *Ctx) {
 				idx  int64
 				name string
 			}
+			ev := p.LookupType("confmap", "expandedValue")
+			// a hook constructor is "the expanded-value hook" if the function it returns type-asserts its input to the
+			// internal expanded-value pair and casts it to the destination (by effect, not by name)
+			isExpandHook := func(f *types.Func) bool {
+				sf := p.SSAFunc(f)
+				if sf == nil || ev == nil {
+					return false
+				}
+				asserts, casts := false, false
+				for _, g := range withAnon(sf) {
+					allInstrs(g, func(in ssa.Instruction) {
+						if ta, ok := in.(*ssa.TypeAssert); ok && namedOf(ta.AssertedType) == ev {
+							asserts = true
+						}
+						if cc, ok := in.(*ssa.Call); ok && len(cc.Call.Args) > 0 && namedOf(cc.Call.Args[0].Type()) == ev {
+							casts = true
+						}
+					})
+				}
+				return asserts && casts
+			}
+			expandNames := map[string]bool{}
 			var list []el
 			if sl, ok := strip(args[len(args)-1]).(*ssa.Slice); ok {
 				if al, ok := strip(sl.X).(*ssa.Alloc); ok {
@@ -971,6 +1012,9 @@ func runC13Hooks(c *Ctx) {
 								}
 								if cc, ok := strip(st.Val).(*ssa.Call); ok && calleeOf(cc) != nil {
 									name = calleeOf(cc).Name()
+									if isExpandHook(calleeOf(cc)) {
+										expandNames[name] = true
+									}
 								}
 								if mi, ok := st.Val.(*ssa.MakeInterface); ok {
 									if cc, ok := strip(mi.X).(*ssa.Call); ok && calleeOf(cc) != nil {
@@ -989,7 +1033,7 @@ func runC13Hooks(c *Ctx) {
 				if e.idx == 0 {
 					first = e.name
 				}
-				if strings.Contains(strings.ToLower(e.name), "expand") && !strings.Contains(strings.ToLower(e.name), "nil") {
+				if expandNames[e.name] {
 					hasExpand = true
 				}
 			}
@@ -997,7 +1041,7 @@ func runC13Hooks(c *Ctx) {
 				n--
 				continue // another chain (the encoder's)
 			}
-			c.Check(strings.Contains(strings.ToLower(first), "expand") && !strings.Contains(strings.ToLower(first), "nil"), "first decode hook in "+fnName(fn)+" resolves expanded values", p.Pos(ci.Pos()), "hook #0 = "+first, "hook #0 is "+first+": a hook that runs before the expanded-value hook sees the wrapper instead of the value – e.g. the default-slice reset does not recognise a list supplied through one `${…}` reference, so the component's default entries are silently merged into what the user wrote")
+			c.Check(expandNames[first], "first decode hook in "+fnName(fn)+" resolves expanded values", p.Pos(ci.Pos()), "hook #0 = "+first, "hook #0 is "+first+": a hook that runs before the expanded-value hook sees the wrapper instead of the value – e.g. the default-slice reset does not recognise a list supplied through one `${…}` reference, so the component's default entries are silently merged into what the user wrote")
 		}
 	}
 	if n == 0 {
@@ -1065,12 +1109,21 @@ func runC15Throttle(c *Ctx) {
 			for v := range backSlice(delay) {
 				switch x := v.(type) {
 				case *ssa.Call:
-					if f := calleeOf(x); f != nil && f.Pkg() != nil && f.Pkg().Path() == pk.PkgPath {
-						tainted = "call of " + f.Name()
+					// a package-local helper: tainted if its body reads exporter configuration
+					if cf := staticCalleeFn(x); cf != nil && cf.Pkg != nil && cf.Pkg.Pkg.Path() == pk.PkgPath {
+						allInstrs(cf, func(in ssa.Instruction) {
+							if fa, ok := in.(*ssa.FieldAddr); ok && derefStruct(fa.X.Type()) != nil {
+								if nme := derefStruct(fa.X.Type()).Field(fa.Field).Name(); strings.Contains(strings.ToLower(nme), "config") || strings.Contains(nme, "MaxInterval") {
+									tainted = "helper " + cf.Name() + ", which reads configuration field " + nme
+								}
+							}
+						})
 					}
 				case *ssa.FieldAddr:
-					if nme := derefStruct(x.X.Type()).Field(x.Field).Name(); strings.Contains(strings.ToLower(nme), "config") || strings.Contains(nme, "MaxInterval") {
-						tainted = "configuration field " + nme
+					if derefStruct(x.X.Type()) != nil {
+						if nme := derefStruct(x.X.Type()).Field(x.Field).Name(); strings.Contains(strings.ToLower(nme), "config") || strings.Contains(nme, "MaxInterval") {
+							tainted = "configuration field " + nme
+						}
 					}
 				}
 			}
